@@ -79,6 +79,7 @@ fn u_space(tier: Tier) -> Vec<Universe> {
                         kind,
                         bigram,
                         astral_takes_nul: false,
+                default_line_pos: 0,
                     },
                     alphabet: vec!['a', 'b', ' ', '\u{3000}', 'c'],
                     opts: vec![
@@ -96,6 +97,16 @@ fn u_space(tier: Tier) -> Vec<Universe> {
                 });
             }
         }
+        }
+    }
+    // char.def with DEFAULT defined after SPACE / at the end (same ids, different line order)
+    let n = out.len();
+    for i in (0..n).step_by(5) {
+        for pos in [1usize, 3] {
+            let mut u = out[i].clone();
+            u.dict.default_line_pos = pos;
+            u.name.push_str(&format!("/DEFAULT-line@{pos}"));
+            out.push(u);
         }
     }
     out
